@@ -200,4 +200,8 @@ example :
     cbs (runForever c w) = [(.onOpen, []), (.onClose, [.none, .none])] := by
   decide
 
+/-- generated fact: `WebSocketApp.close()` clears `keep_running` FIRST, before the closing handshake (whose wait for the
+    server's reply lets the ping thread and other threads run) — as `Model.App.appClose` does. -/
+theorem close_clears_first_in_source : Gen.appCloseClearsFirst = true := by decide
+
 end WS.Props.C14
